@@ -154,7 +154,8 @@ def _account(stats, meta, ops, model_lines):
         stats.verbs[t[0] if t[0] != "q" else "q:" + (t[2] if len(t) > 2 else "?")] += 1
         for l in out:
             if l.startswith("R "):
-                stats.outcomes[l.split()[1] if l.startswith("R !") else "ok"] += 1
+                w = l.split()
+                stats.outcomes[w[1] if (l.startswith("R !") or l.startswith("R eq=")) else "ok"] += 1
                 break
         # state change: dump blocks per slot differ from the last one seen
         cur, key = [], None
